@@ -29,6 +29,8 @@ class Cond:
 def _run_worker(args, wall):
     env = dict(os.environ)
     env["PYTHONPATH"] = ROOT + os.pathsep + env.get("PYTHONPATH", "")
+    if os.environ.get("GTWRAP_REPO"):
+        env["PYTHONPATH"] = os.environ["GTWRAP_REPO"] + os.pathsep + env["PYTHONPATH"]
     env.setdefault("PYTHONHASHSEED", "0")
     t0 = time.time()
     try:
@@ -120,6 +122,7 @@ def run(rep: Report, conds: List[Cond], open_findings=(), jobs=NCPU):
         verdict = r.get("verdict", "error")
         npaths = int(r.get("stats", {}).get("num_paths", 0) or r.get("reached", 0))
         rep.paths += max(npaths, int(r.get("reached", 0)))
+        rep.extra["distinct"] = rep.extra.get("distinct", 0) + int(r.get("reached", 0))
         rep.queries += 1
         detail = ""
         if verdict == "confirmed" and int(r.get("reached", 0)) < 1:
